@@ -17,6 +17,10 @@
 #include <unistd.h>
 #include <dlfcn.h>
 #include <sys/mman.h>
+#include <sys/syscall.h>
+#include <stdio.h>
+#include <stdlib.h>
+#include <fcntl.h>
 
 extern "C" {
 void *__libc_malloc(size_t);
@@ -46,6 +50,7 @@ struct Header            // sits immediately before the user pointer
 struct FreeNode { FreeNode *next; };
 
 bool g_active;
+int getenv_dbg;
 Prng g_rng(1);
 char *g_base[NARENA], *g_cur[NARENA], *g_end[NARENA];
 FreeNode *g_free[NARENA][NCLASS];
@@ -141,6 +146,7 @@ void *alloc_block(size_t n, size_t align)
   if (g_poison) memset(user, g_poison_new, n);
   ++g_allocs; g_bytes += (long) n;
   if (g_allocs <= 4096) { uintptr_t u = (uintptr_t) user; g_addr_hash = fnv1a(g_addr_hash, &u, sizeof u); }
+  if (getenv_dbg) { char b[64]; int k = snprintf(b, sizeof b, "A %zu %d\n", n, (int) syscall(SYS_gettid)); if (write(getenv_dbg, b, k) < 0) {} }
   return user;
 }
 
@@ -148,6 +154,7 @@ void free_block(void *p)
 {
   Header *h = (Header *) ((char *) p - sizeof(Header));
   if (h->magic != MAGIC) return;            // not ours after all (or double free): leave it
+  if (getenv_dbg) { char b[64]; int k = snprintf(b, sizeof b, "F %u %d\n", h->size, (int) syscall(SYS_gettid)); if (write(getenv_dbg, b, k) < 0) {} }
   int a = h->arena, k = h->klass;
   size_t cap = (size_t) h->cap;
   h->magic = 0;
@@ -203,6 +210,7 @@ void simalloc_activate(uint64_t seed, int poison)
   static const int bytes[] = { 0x00, 0xaa, 0x55, 0xff, 0xcd, 0x7f };
   g_poison_new = bytes[g_rng.below(6)];
   g_poison_free = bytes[g_rng.below(6)];
+  if (const char *d = getenv("SIMM_DEBUG_LOG")) getenv_dbg = open(d, O_WRONLY | O_CREAT | O_TRUNC, 0644);
   g_active = true;
 }
 
